@@ -52,7 +52,7 @@ PLAN = {
     "C08": dict(quick=640, thorough=20000, timeout=180), "C09": dict(quick=640, thorough=15000, timeout=180),
     "C10": dict(quick=640, thorough=20000, timeout=180), "C12": dict(quick=640, thorough=20000, timeout=180),
     "C16": dict(quick=640, thorough=20000, timeout=180), "C39": dict(quick=480, thorough=20000, timeout=180),
-    "C13": dict(quick=96, thorough=4800, timeout=240, space=48), "C14": dict(quick=160, thorough=8000, timeout=240),
+    "C13": dict(quick=192, thorough=4800, timeout=240, space=48), "C14": dict(quick=160, thorough=8000, timeout=240),
     "C23": dict(quick=160, thorough=8000, timeout=240), "C26": dict(quick=160, thorough=8000, timeout=240, extra=[("C26S", dict(quick=120, thorough=6000, timeout=240))]),
     "C34": dict(quick=20000, thorough=1000000, timeout=60),
     # (a corrupt IVF frame header makes ivfreader allocate up to 4 GiB per frame; cheap on an idle machine,
